@@ -262,6 +262,13 @@ def run(ctx):
     for d in range(0, 3 if ctx.quick else 4):
         for rem in itertools.combinations(range(64), d):
             fam.append((3, set(range(64)) - set(rem), (1, 2, 3, 4) if d <= 2 else (3, 4)))
+    # very sparse masks at order 5: single vertices (never closed -> ValueError) and the smallest closed sets
+    for v in range(0, 4 ** 5, 1 if not ctx.quick else 3):
+        fam.append((5, {v}, (1, 2)))
+    for a, b in alph:
+        verts = {O.idx(''.join(p)) for p in itertools.product(O.NUC[a] + O.NUC[b], repeat=5)}
+        fam.append((5, verts, (1, 2, 3)))
+        fam.append((5, verts - {min(verts)}, (1, 2)))
     fm = filter_masks(3, 6 if ctx.quick else 8)
     fam += [(k, m, (1, 2, 3, 4)) for k, m in fm if m]
     fam.sort(key=lambda x: -len(x[1]) * (4 ** x[0]))
